@@ -567,7 +567,7 @@ bool Instance::configure_tx_txin() {
 
     parse_stack_args(push_del);
     while (!push_del.empty()) {
-        delete push_del.back();
+        free((void*)push_del.back()); // allocated with strdup
         push_del.pop_back();
     }
 
